@@ -494,7 +494,7 @@ def opDefval (j : Json) : Except String Json := do
   let enumOf ← subList (← j.getObjVal? "enum")
   let known ← getList (fun x => x.getNat?) (← j.getObjVal? "known")
   let dv ← defval (← j.getObjVal? "defval")
-  return jEmitted (genDefVal (← b "isInt") (← b "isOid") (← b "isBits") enumOf (fun n => known.contains n) dv)
+  return jEmitted (genDefVal (← b "isInt") (← b "isOid") (← b "isBits") (← b "isOctets") enumOf (fun n => known.contains n) dv)
 end Sx
 
 /-! ### op: struct (references, indices, compliance groups, node types of one module) -/
